@@ -151,11 +151,11 @@ m("M12f_mismatch_is_error", ["C12"], [("pdf/src/file.rs", "                    E
    "                    Err(e) => Err(e),")], expect="C12-G1", note="needs two typed loads of one reference as different types, cached")
 
 # ------------------------------------------------------------------ C13
-m("M13a_lock_across_load", ["C13"], [("pdf/src/file.rs", "        {\n            debug!(\"get {key:?} as {}\", std::any::type_name::<T>());\n            let mut chain = self.chain.lock().unwrap();\n            if chain.contains(&key) {\n                bail!(\"Recursive reference\");\n            }\n            chain.push(key);\n        }\n        let _defer = Defer(|| {\n            let mut chain = self.chain.lock().unwrap();\n            assert_eq!(chain.pop(), Some(key));\n        });",
-   "        debug!(\"get {key:?} as {}\", std::any::type_name::<T>());\n        let mut chain = self.chain.lock().unwrap();\n        if chain.contains(&key) {\n            bail!(\"Recursive reference\");\n        }\n        chain.push(key);\n        let _defer = Defer(|| {\n            if let Ok(mut chain) = self.chain.try_lock() { chain.pop(); }\n        });")],
+m("M13a_lock_across_load", ["C13"], [("pdf/src/file.rs", "        {\n            debug!(\"get {key:?} as {}\", std::any::type_name::<T>());\n            let mut chain = self.chain.lock().unwrap();\n            if chain.contains(&key) {\n                bail!(\"Recursive reference\");\n            }\n            if chain.len() >= MAX_LOAD_DEPTH {\n                bail!(\"objects nested too deeply\");\n            }\n            chain.push(key);\n        }\n        let _defer = Defer(|| {\n            let mut chain = self.chain.lock().unwrap();\n            assert_eq!(chain.pop(), Some(key));\n        });",
+   "        debug!(\"get {key:?} as {}\", std::any::type_name::<T>());\n        let mut chain = self.chain.lock().unwrap();\n        if chain.contains(&key) {\n            bail!(\"Recursive reference\");\n        }\n        if chain.len() >= MAX_LOAD_DEPTH {\n            bail!(\"objects nested too deeply\");\n        }\n        chain.push(key);\n        let _defer = Defer(|| {\n            if let Ok(mut chain) = self.chain.try_lock() { chain.pop(); }\n        });")],
   expect="C13-LOCK1", note="guard lock held while loading: nested load self-deadlocks (does not pass tests that load nested objects)")
-m("M13b_pop_after_only", ["C13"], [("pdf/src/file.rs", "        let _defer = Defer(|| {\n            let mut chain = self.chain.lock().unwrap();\n            assert_eq!(chain.pop(), Some(key));\n        });\n        \n        let res = self.storage.cache.get_or_compute(key, || {",
-   "        let pop = || {\n            let mut chain = self.chain.lock().unwrap();\n            assert_eq!(chain.pop(), Some(key));\n        };\n        \n        let res = self.storage.cache.get_or_compute(key, || {"),
+m("M13b_pop_after_only", ["C13"], [("pdf/src/file.rs", "        let _defer = Defer(|| {\n            let mut chain = self.chain.lock().unwrap();\n            assert_eq!(chain.pop(), Some(key));\n        });\n        \n        let mut computed = false;",
+   "        let pop = || {\n            let mut chain = self.chain.lock().unwrap();\n            assert_eq!(chain.pop(), Some(key));\n        };\n        \n        let mut computed = false;"),
    ("pdf/src/file.rs", "        });\n        match res {\n            Ok(any) => {", "        });\n        pop();\n        match res {\n            Ok(any) => {")],
   expect="C13-PAIR", note="entry leaks when the reader panics inside a caught unwind; later loads of that reference report recursion")
 m("M13c_object_not_sync", ["C13"], [("pdf/src/object/mod.rs", "pub trait Object: Sized + Sync + Send + 'static {", "pub trait Object: Sized + 'static {")], expect=None,
